@@ -385,7 +385,8 @@ class Harness:
     """
     def __init__(self, m, mod='m', script=None, n_inst=1, ref_pages=None, sym_window=0, max_host_calls=6,
                  prefix=False, check_instantiation=True, float_exact=None, tab_slots=None, futex_stub=False,
-                 child_of=None, arg_assume=None):
+                 child_of=None, arg_assume=None, page=65536):
+        self.page = page
         self.m, self.mod = m, mod
         self.script = script or []
         self.n_inst = n_inst
@@ -439,11 +440,13 @@ class Harness:
         w('#include "ref_ops.h"')
         w('#define R_BULK_MAX 6')
         w('#include "%s.h"' % mod)
-        w('#define RMEM_BYTES %d' % max(1, self.ref_pages * 65536))
+        w('#define RMEM_BYTES %d' % max(1, self.ref_pages * self.page))
+        w('#define RPAGE %dull' % self.page)
         w('#define RTAB_SLOTS %d' % max(1, self.tab_slots))
         w('#define NG %d' % max(1, ng))
         w('#define MAXC %d' % self.max_host_calls)
-        w('typedef struct { uint8_t data[RMEM_BYTES]; uint32_t pages; uint32_t maxpages; int has_max; } RMem;')
+        w('typedef struct { uint8_t* data; uint32_t pages; uint32_t maxpages; int has_max; } RMem;')
+        w('static uint8_t R_memdata0[RMEM_BYTES]; static uint8_t R_memdata1[RMEM_BYTES]; static uint8_t R_memdatah[RMEM_BYTES];')
         w('typedef struct { int32_t f[RTAB_SLOTS]; uint32_t size; } RTab;')
         w('typedef struct RState { uint64_t own_g[NG]; uint64_t* g[NG]; RMem* mem; RTab* tab; int id; } RState;')
         w('static RMem R_ownmem[2]; static RTab R_owntab[2]; static RMem R_hostmem; static RTab R_hosttab; static uint64_t R_hostg[NG];')
@@ -453,18 +456,18 @@ class Harness:
         w('static uint64_t r_trunc(uint64_t v, int bits) { return bits >= 64 ? v : (v & ((((uint64_t)1) << bits) - 1)); }')
         w('static uint64_t r_sext(uint64_t v, int from, int to) { uint64_t s = ((uint64_t)1) << (from - 1); v = r_trunc(v, from); if (v & s) v |= ~((s << 1) - 1); return r_trunc(v, to); }')
         # memory helpers
-        w('static uint64_t R_load(RState* S, uint64_t ea, int n) { uint64_t v = 0; int k; if (ea + (uint64_t)n > (uint64_t)S->mem->pages * 65536ull) { R_stop = 1; return 0; }')
+        w('static uint64_t R_load(RState* S, uint64_t ea, int n) { uint64_t v = 0; int k; if (ea + (uint64_t)n > (uint64_t)S->mem->pages * RPAGE) { R_stop = 1; return 0; }')
         w('  for (k = 0; k < n; k++) v |= ((uint64_t)S->mem->data[ea + k]) << (8 * k); return v; }')
-        w('static void R_store(RState* S, uint64_t ea, int n, uint64_t v) { int k; if (ea + (uint64_t)n > (uint64_t)S->mem->pages * 65536ull) { R_stop = 1; return; }')
+        w('static void R_store(RState* S, uint64_t ea, int n, uint64_t v) { int k; if (ea + (uint64_t)n > (uint64_t)S->mem->pages * RPAGE) { R_stop = 1; return; }')
         w('  for (k = 0; k < n; k++) S->mem->data[ea + k] = (uint8_t)(v >> (8 * k)); }')
-        w('static uint64_t R_grow(RState* S, uint32_t delta) { uint64_t old = S->mem->pages; uint64_t lim = S->mem->has_max ? S->mem->maxpages : 65536ull;')
-        w('  if (old + (uint64_t)delta > lim) return 0xFFFFFFFFull; if (old + delta > RMEM_BYTES / 65536) { R_stop = 1; return 0; }')
+        w('static uint64_t R_grow(RState* S, uint32_t delta) { uint64_t old = S->mem->pages; uint64_t lim = S->mem->has_max ? S->mem->maxpages : 65536ull /* spec limit on the page COUNT */;')
+        w('  if (old + (uint64_t)delta > lim) return 0xFFFFFFFFull; if (old + delta > RMEM_BYTES / RPAGE) { R_stop = 1; return 0; }')
         w('  S->mem->pages = (uint32_t)(old + delta); return old; }')
-        w('static void R_fill(RState* S, uint32_t d, uint32_t val, uint32_t n) { uint32_t k; if ((uint64_t)d + n > (uint64_t)S->mem->pages * 65536ull) { R_stop = 1; return; }')
+        w('static void R_fill(RState* S, uint32_t d, uint32_t val, uint32_t n) { uint32_t k; if ((uint64_t)d + n > (uint64_t)S->mem->pages * RPAGE) { R_stop = 1; return; }')
         w('  if (n > R_BULK_MAX) { R_stop = 1; return; } for (k = 0; k < R_BULK_MAX; k++) if (k < n) S->mem->data[d + k] = (uint8_t)val; }')
-        w('static void R_copy(RState* S, uint32_t d, uint32_t s, uint32_t n) { uint32_t k; uint8_t tmp[R_BULK_MAX]; if ((uint64_t)d + n > (uint64_t)S->mem->pages * 65536ull || (uint64_t)s + n > (uint64_t)S->mem->pages * 65536ull) { R_stop = 1; return; }')
+        w('static void R_copy(RState* S, uint32_t d, uint32_t s, uint32_t n) { uint32_t k; uint8_t tmp[R_BULK_MAX]; if ((uint64_t)d + n > (uint64_t)S->mem->pages * RPAGE || (uint64_t)s + n > (uint64_t)S->mem->pages * RPAGE) { R_stop = 1; return; }')
         w('  if (n > R_BULK_MAX) { R_stop = 1; return; } for (k = 0; k < R_BULK_MAX; k++) if (k < n) tmp[k] = S->mem->data[s + k]; for (k = 0; k < R_BULK_MAX; k++) if (k < n) S->mem->data[d + k] = tmp[k]; }')
-        w('static void R_init(RState* S, const uint8_t* seg, uint32_t seglen, uint32_t d, uint32_t s, uint32_t n) { uint32_t k; if ((uint64_t)d + n > (uint64_t)S->mem->pages * 65536ull || (uint64_t)s + n > seglen) { R_stop = 1; return; }')
+        w('static void R_init(RState* S, const uint8_t* seg, uint32_t seglen, uint32_t d, uint32_t s, uint32_t n) { uint32_t k; if ((uint64_t)d + n > (uint64_t)S->mem->pages * RPAGE || (uint64_t)s + n > seglen) { R_stop = 1; return; }')
         w('  for (k = 0; k < seglen; k++) if (k < n) S->mem->data[d + k] = seg[s + k]; }')
         # host calls
         # host-call trace without a read/write array: the K-th call (K symbolic, chosen once) is recorded in
@@ -503,7 +506,7 @@ class Harness:
                 mn, mx = self.mem[0], self.mem[1]
                 if self.child_of is not None and self.mem_shared:
                     w('  if (id == 1) S->mem = &R_ownmem[0]; else {')
-                w('  S->mem = &R_ownmem[id]; for (k = 0; k < RMEM_BYTES; k++) S->mem->data[k] = 0;' if False else '  S->mem = &R_ownmem[id];')
+                w('  S->mem = &R_ownmem[id]; S->mem->data = id ? R_memdata1 : R_memdata0;')
                 w('  S->mem->pages = %d; S->mem->has_max = %d; S->mem->maxpages = %d;' % (mn, 1 if mx is not None else 0, mx if mx is not None else 0))
                 if self.child_of is not None and self.mem_shared:
                     w('  }')
@@ -523,7 +526,7 @@ class Harness:
         for k, d in enumerate(m.datas):
             if d.passive:
                 continue
-            w('  { uint32_t off = (uint32_t)%s; if ((uint64_t)off + %d > (uint64_t)S->mem->pages * 65536ull) { R_stop = 1; return; }' % (const_expr_c(d.offset), len(d.data)))
+            w('  { uint32_t off = (uint32_t)%s; if ((uint64_t)off + %d > (uint64_t)S->mem->pages * RPAGE) { R_stop = 1; return; }' % (const_expr_c(d.offset), len(d.data)))
             w('    for (k = 0; k < %d; k++) S->mem->data[off + k] = R_data%d[k]; }' % (len(d.data), k))
         if m.start is not None:
             w('  R_f%d(S);' % m.start if m.start >= nimpf else '  R_host(S, %d, 0, 0, 0, 0, 0);' % m.start)
@@ -564,8 +567,8 @@ class Harness:
         if self.mem:
             macc = 'I->%s' % self.memname()
             w('  V_ASSERT(%s->pages == S->mem->pages, "memory.size (pages) equals reference");' % macc)
-            w('  V_ASSERT(%s->shared || (uint64_t)%s->size == (uint64_t)S->mem->pages * 65536ull, "memory byte size is pages*65536");' % (macc, macc))
-            w('  if ((uint64_t)cmp_idx < (uint64_t)S->mem->pages * 65536ull) V_ASSERT(%s->data[cmp_idx] == S->mem->data[cmp_idx], "memory byte at arbitrary index equals reference");' % macc)
+            w('  V_ASSERT(%s->shared || (uint64_t)%s->size == (uint64_t)S->mem->pages * RPAGE, "memory byte size is pages*65536");' % (macc, macc))
+            w('  if ((uint64_t)cmp_idx < (uint64_t)S->mem->pages * RPAGE) V_ASSERT(%s->data[cmp_idx] == S->mem->data[cmp_idx], "memory byte at arbitrary index equals reference");' % macc)
         if self.tab:
             tacc = ('(*I->%s)' % self.tabname()) if self.tab_imported else 'I->t0'
             w('  for (k = 0; k < RTAB_SLOTS; k++) if ((uint32_t)k < S->tab->size && S->tab->f[k] >= 0) V_ASSERT(%s.data[k] == real_fn(S->tab->f[k]), "table slot holds the designated function");' % tacc)
@@ -667,12 +670,12 @@ class Harness:
         if self.mem_imported:
             mn, mx = self.mem[0], self.mem[1]
             w('  H_mem.data = (U8*)malloc(%d); V_ASSUME(H_mem.data != 0); H_mem.pages = %d; H_mem.size = %d; H_mem.maxPages = %d; H_mem.shared = %s;' %
-              (mn * 65536, mn, mn * 65536, mx if mx is not None else 65535, 'true' if self.mem_shared else 'false'))
-            w('  R_hostmem.pages = %d; R_hostmem.has_max = %d; R_hostmem.maxpages = %d;' % (mn, 1 if mx is not None else 0, mx or 0))
-            w('  { uint32_t hb = nd32(); V_ASSUME(hb <= %d - 8); for (k = 0; k < 8; k++) { uint8_t v = nd8(); H_mem.data[hb + k] = v; R_hostmem.data[hb + k] = v; }' % (mn * 65536))
+              (mn * self.page, mn, mn * self.page, mx if mx is not None else 65535, 'true' if self.mem_shared else 'false'))
+            w('  R_hostmem.data = R_memdatah; R_hostmem.pages = %d; R_hostmem.has_max = %d; R_hostmem.maxpages = %d;' % (mn, 1 if mx is not None else 0, mx or 0))
+            w('  { uint32_t hb = nd32(); V_ASSUME(hb <= %d - 8); for (k = 0; k < 8; k++) { uint8_t v = nd8(); H_mem.data[hb + k] = v; R_hostmem.data[hb + k] = v; }' % (mn * self.page))
             w('    for (k = 0; k < 0; k++) { } }')
             w('  /* bytes of the host memory outside the 8-byte symbolic window: equal by construction */')
-            w('  { uint32_t j = cmp_idx; if (j < %d) { R_hostmem.data[j] = H_mem.data[j]; } }' % (mn * 65536))
+            w('  { uint32_t j = cmp_idx; if (j < %d) { R_hostmem.data[j] = H_mem.data[j]; } }' % (mn * self.page))
         if self.tab_imported:
             w('  H_tab.data = H_tabdata; H_tab.size = %d; H_tab.maxSize = %d; R_hosttab.size = %d;' % (self.tab[0], self.tab[1] or self.tab[0], self.tab[0]))
             w('  for (k = 0; k < RTAB_SLOTS; k++) { R_hosttab.f[k] = -1; H_tabdata[k] = (wasmFunc)0; }')
@@ -703,7 +706,7 @@ class Harness:
         w('  phase_real = 0;')
         if self.sym_window and self.mem:
             macc = 'INST[0].%s' % self.memname()
-            w('  { uint32_t wb = nd32(); V_ASSUME((uint64_t)wb + %d <= (uint64_t)RS[0].mem->pages * 65536ull);' % self.sym_window)
+            w('  { uint32_t wb = nd32(); V_ASSUME((uint64_t)wb + %d <= (uint64_t)RS[0].mem->pages * RPAGE);' % self.sym_window)
             w('    for (k = 0; k < %d; k++) { uint8_t v = nd8(); %s->data[wb + k] = v; RS[0].mem->data[wb + k] = v; } }' % (self.sym_window, macc))
         # script
         for si, st in enumerate(self.script):
